@@ -2,6 +2,8 @@
 use crate::core::PropDef;
 
 pub mod c02;
+pub mod c05;
+pub mod c06;
 pub mod c07;
 pub mod c08;
 pub mod c12;
@@ -9,5 +11,5 @@ pub mod c13;
 pub mod c19;
 
 pub fn all() -> Vec<PropDef> {
-    vec![c02::def(), c07::def(), c08::def(), c12::def(), c13::def(), c19::def()]
+    vec![c02::def(), c05::def(), c06::def(), c07::def(), c08::def(), c12::def(), c13::def(), c19::def()]
 }
